@@ -1,7 +1,7 @@
 // Translation unit for the blank-line limiters (C20-K1..K3, C16-K4, C17-K5): blank_line_max, blank_line_set
 // (src/newlines/blank_line.cpp), newlines_eat_start_end (src/newlines/eat_start_end.cpp), too_big_for_nl_max
 // (src/too_big_for_nl_max.cpp), sliced verbatim.
-#include "/repo/src/token_enum.h"
+#include "token_enum.h"      /* from the working tree: -I <repo>/src */
 #define VERIF_E_TOKEN
 #include "base.h"
 #include "containers.h"
